@@ -40,7 +40,11 @@ pub open spec fn may_relay(tcp: TcpConnectionContext, url: http::Uri, kk: KeyKee
 // ---- C11: the failed-authorization summary, as a ghost trace of the events handed to the status actor ----
 pub struct FailEv {
     pub user: Seq<char>, pub cmd: Seq<char>, pub exe: std::path::PathBuf, pub dest_ip: Seq<char>, pub dest_port: u16,
-    pub client_ip: Seq<char>, pub status: http::StatusCode,
+    pub client_ip: Seq<char>, pub status: Seq<char>,
+}
+pub uninterp spec fn status_text(s: http::StatusCode) -> Seq<char>;   // StatusCode::to_string ("403 Forbidden")
+pub open spec fn fail_ev_of(s: crate::proxy::proxy_summary::ProxySummary) -> FailEv {
+    FailEv { user: s.userName@, cmd: s.processCmdLine@, exe: s.processFullPath, dest_ip: s.ip@, dest_port: s.port, client_ip: s.clientIp@, status: s.responseStatus@ }
 }
 pub tracked struct HTrace { pub ghost failed: Seq<FailEv> }
 
@@ -48,5 +52,5 @@ pub tracked struct HTrace { pub ghost failed: Seq<FailEv> }
 pub open spec fn denial_event(tcp: TcpConnectionContext, status: http::StatusCode) -> FailEv {
     let c = tcp.claims->0;
     FailEv { user: c.userName@, cmd: c.processCmdLine@, exe: c.processFullPath, dest_ip: ip_string(tcp.destination_ip->0),
-             dest_port: tcp.destination_port, client_ip: c.clientIp@, status: status }
+             dest_port: tcp.destination_port, client_ip: c.clientIp@, status: status_text(status) }
 }
